@@ -123,6 +123,9 @@ def build_api(r, reserved_words, use_reserved=True, hostile=False):
         # some of the bound methods are server-streaming (returns (stream Reply)): same request side, JSON array reply
         streaming = out == rep.fqn and (pos == stream_pos or r.random() < 0.15)
         svc.rpc(nm, m.fqn, out, ss=streaming, http=(r.choice(VERBS), uri(info)), body=body(info), more_http=more)
+        if r.random() < 0.3:
+            # an unsupported additional binding (custom verb / no pattern at all) before, between or after the standard ones
+            insert_unsupported(svc.proto.method[-1], r.randint(0, len(more)), r.random() < 0.6)
     # request / reply types from a dependency (plain protobuf classes) on either side, any two of the three mixed shapes
     EXPR = ".google.type.Expr"
     f.dep("google/type/expr.proto")
@@ -162,6 +165,22 @@ def py_class(req, fqn):
         if fqn.startswith(pre) and fqn[len(pre):] in [m.name for m in fp.message_type]:
             return fp.name[:-len(".proto")].replace("/", ".") + "_pb2:" + fqn[len(pre):]
     raise KeyError(fqn)
+
+
+def insert_unsupported(method_pb, index, custom=True):
+    """Put a binding try_parse_http_rule rejects (custom verb, or no pattern) at [index] of the additional bindings."""
+    from google.api import http_pb2
+    ext = method_pb.options.Extensions[annotations_pb2.http]
+    keep = [http_pb2.HttpRule() for _ in ext.additional_bindings]
+    for k, a in zip(keep, ext.additional_bindings):
+        k.CopyFrom(a)
+    x = http_pb2.HttpRule()
+    if custom:
+        x.custom.kind, x.custom.path = "HEAD", "/v1/unsupported"
+    keep.insert(index, x)
+    del ext.additional_bindings[:]
+    for k in keep:
+        ext.additional_bindings.add().CopyFrom(k)
 
 
 # ------------------------------------------------------------------ schema read back from the input descriptors
@@ -211,9 +230,13 @@ def schema_of(req):
 def in_model(ms):
     """The shapes Model/Http.v is stated for (see ASSUMES)."""
     rules = [ms["rule"]] + ms["more"]
+    # unsupported bindings (custom verb, no pattern) are merely skipped wherever they stand; a non-verb PRIMARY rule with
+    # further bindings is modelled only for request messages without REQUIRED fields (query_params is then never evaluated)
+    if any(x["pat"] != "verb" and x["body"] for x in rules) or any(x["pat"] == "verb" and not x["uri"] for x in rules):
+        return False
     if ms["rule"]["pat"] != "verb":
-        return not ms["more"] and not ms["rule"]["body"]
-    return all(x["pat"] == "verb" and x["uri"] for x in rules)
+        return not ms["more"] or not any(f["required"] for f in ms["fields"])
+    return True
 
 
 # ------------------------------------------------------------------ Coq terms
